@@ -253,6 +253,7 @@ def r_gate(ck: Checker) -> None:
         raise Unsupported("_check_runtime_types: not a single loop / comprehension over the field map", h.node)
     what = "_check_runtime_types reports exactly the fields whose value does not conform (is_instance(getattr(node, f.name), resolved type) is false)"
     ok = False
+    polarity_bad = False
     if len(loops) == 1 and isinstance(loops[0].target, ast.Tuple) and len(loops[0].target.elts) == 2:
         nodep, mapp = h.node.args.args[0].arg, h.node.args.args[1].arg
         fv, ti = norm(loops[0].target.elts[0]), norm(loops[0].target.elts[1])
@@ -261,6 +262,7 @@ def r_gate(ck: Checker) -> None:
             key_variants = {f"is_instance(getattr({nodep}, {fv}.name), {ti}.resolved_type)"}
             good = True
             acc = None
+            polarity_bad = False
             for lf in leaves:
                 ks = set(lf.assign)
                 if len(ks) != 1 or not ks <= key_variants:
@@ -271,6 +273,7 @@ def r_gate(ck: Checker) -> None:
                         and st.value.func.attr == "append"]
                 if conforms and apps:
                     good = False
+                    polarity_bad = True
                 if not conforms:
                     if len(apps) != 1 or norm(apps[0].value.args[0]) != fv:
                         good = False
@@ -281,7 +284,12 @@ def r_gate(ck: Checker) -> None:
     if ok:
         ck.holds("R-GATE", h, loops[0], what)
     else:
-        ck.violation("R-GATE", h, h.node, what, construct="_check_runtime_types: per-field check not recognised / wrong")
+        if polarity_bad:
+            ck.violation("R-GATE", h, h.node, what, construct="_check_runtime_types: a field is reported when its value conforms (inverted test)")
+        elif not any(isinstance(c_, ast.Call) and dotted(c_.func) == "is_instance" for c_ in ast.walk(h.node)):
+            ck.violation("R-GATE", h, h.node, what, construct="_check_runtime_types: no field value is checked with is_instance")
+        else:
+            raise Unsupported("_check_runtime_types: per-field check not recognised", h.node)
 
 
 def r_union_first(ck: Checker) -> None:
